@@ -105,7 +105,8 @@ def step (st : St) (j : Json) : St × List String :=
     let tx := parseTx (jObj j "tx")
     let payload := match jStr j "payload" with | "ok" => some true | "bad" => some false | _ => none
     let r := add cfg st.s tx { payload := payload, commitFails := jStr j "fail" != "none" && jStr j "fail" != "",
-                               savePayloadEventFails := jStr j "save" == "payload", saveTxEventFails := jStr j "save" == "tx" }
+                               savePayloadEventFails := jStr j "save" == "payload", saveTxEventFails := jStr j "save" == "tx",
+                               putFails := if jNat j "put" > 0 then some (jNat j "put") else none }
     ({ st with s := r.1 }, [if jBool j "quiet" then resStr r.2 else resStr r.2 ++ " | " ++ observe r.1 j])
   | "batch" => (st, ["batch"])
   | "race" => (st, ["race"])
